@@ -351,7 +351,7 @@ func checkC11(c *Ctx) {
 	// ---- the bit mask of MaskBits: counts and widths are finite sets, so bitMask
 	// is walked (E7, typed integer arithmetic) for every width and every count
 	// from 0 to 72 positions beyond the largest width (relative to Sub, kept as a call)
-	c.Rule("C11.mask", "bitMask(bits, w), walked for every width 1..MaxWidth and every count 0..8*MaxWidth+72, returns either a constant of width w that fits the width and equals 2^min(bits,8w)-1, or Sub(Lsh(1, bits), 1) at width w (Sub decided by C11.ring; a shift by 8w or more is zero by C10, the difference all ones); MaskBits is BitAnd (C11.bitwise) of its operand and that mask at the same width")
+	c.Rule("C11.mask", "bitMask(bits, w), walked for every width 1..MaxWidth and every count 0..8*MaxWidth+72, returns either a constant of width w that equals 2^min(bits,8w)-1 (which needs min(bits,8w) <= 64), or Sub(Lsh(1, bits), 1) at width w (Sub decided by C11.ring; a shift by 8w or more is zero by C10, the difference all ones); MaskBits is BitAnd (C11.bitwise) of its operand and that mask at the same width")
 	if bm := c.Prog.Func(tpkg + ".bitMask"); bm != nil && bm.Blocks != nil && len(bm.Params) == 2 {
 		n++
 		maxW := int64(255)
@@ -406,12 +406,17 @@ func checkC11(c *Ctx) {
 						k, ok1 := vl.EvalInt(call.Call.Args[0], nil)
 						ww, ok2 := vl.EvalInt(call.Call.Args[1], nil)
 						last, form = call, "constant"
-						want := ^uint64(0)
-						if bits < 64 {
-							want = uint64(1)<<uint(bits) - 1
+						// the mask has min(bits, 8w) ones: a uint64 constant can spell it only up to 64,
+						// and NewConstUint panics on a value beyond the width
+						eff := bits
+						if eff > 8*w {
+							eff = 8 * w
 						}
-						// NewConstUint panics on a value beyond the width: the count must fit it
-						okForm = ok1 && ok2 && ww == w && bits <= 64 && bits <= 8*w && uint64(k) == want
+						want := ^uint64(0)
+						if eff < 64 {
+							want = uint64(1)<<uint(eff) - 1
+						}
+						okForm = ok1 && ok2 && ww == w && eff <= 64 && uint64(k) == want
 					case subFn != nil && g == Origin(subFn) && len(call.Call.Args) == 3:
 						ww, ok2 := vl.EvalInt(call.Call.Args[2], nil)
 						sh, isSh := Unwrap(vl.Root(call.Call.Args[0])).(*ssa.Call)
@@ -439,7 +444,7 @@ func checkC11(c *Ctx) {
 				case last == nil || Unwrap(vl.Root(ret.Results[0])) != ssa.Value(last):
 					bad = fmt.Sprintf("width %d, count %d: the result is not a constant or a difference built here", w, bits)
 				case !okForm:
-					bad = fmt.Sprintf("width %d, count %d: the %s built is not 2^min(%d,%d)-1 at width %d%s", w, bits, form, bits, 8*w, w, map[bool]string{true: " (a constant beyond the width makes NewConstUint panic)"}[form == "constant" && bits > 8*w])
+					bad = fmt.Sprintf("width %d, count %d: the %s built is not 2^min(%d,%d)-1 at width %d%s", w, bits, form, bits, 8*w, w, map[bool]string{true: " (a constant beyond the width makes NewConstUint panic; one of 64 bits cannot hold a longer mask)"}[form == "constant" && (bits > 8*w || bits > 64)])
 				default:
 					walked++
 				}
